@@ -3,7 +3,7 @@ import os, json, re, shutil
 from vlib import *
 import conc
 
-OPS = ("call", "rlock", "runlock", "sync", "getdef", "create", "setthr", "setcpu", "cpu", "free", "barrier", "pause", "resume", "createall", "freeall", "offline", "online")
+OPS = ("call", "rlock", "runlock", "sync", "getdef", "create", "setthr", "setcpu", "cpu", "free", "barrier", "pause", "resume", "createall", "freeall", "offline", "online", "pub", "qfree")
 
 
 def norm_op(o):
@@ -41,6 +41,7 @@ def consts(sc):
     re_ = {n: sc.get("re", {}).get(n, "-") for n in nodes_of(sc)}
     return {"Threads": tla(set(thr)), "Prog": tla_fun(thr), "SBMax": str(sc.get("sbmax", 2)), "NHelp": str(sc.get("nhelp", 1)),
             "NCpu": str(sc.get("ncpu", 2)), "Re": tla_fun(re_), "Spurious": str(sc.get("spurious", 0)),
+            "SigThreads": tla(set(sc.get("sig_threads", []))), "SigBudget": str(sc.get("sig_budget", 0)),
             "Mut": tla(set(sc.get("mut", [])))}
 
 
@@ -50,6 +51,8 @@ def program(sc):
         out.append("ncpu %d" % sc.get("ncpu", 2))      # the possible-CPU array length seen by the library = the model's NCpu
     for n, m in sc.get("re", {}).items():
         out.append("re %s %s" % (n, m))
+    for t in sc.get("sig_threads", []):
+        out.append("sig %s" % t)
     for t, ops in sc["threads"].items():
         out.append("thread %s" % t)
         for o in ops:
@@ -60,9 +63,31 @@ def program(sc):
 
 # ------------------------------------------------------------------ projection of recorded executions
 DROP_OPS = ("rmb", "wmb", "sigmask", "end", "blocked", "relax", "poll", "replay_diverged")
-XA = {"st": "a", "flush": "a", "xchg": "a", "inc": "a", "dec": "a", "add": "a", "or": "a", "and": "a", "addret": "a", "fwait": "a", "call": "a", "cb": "a"}
-XR = {"ld": "r", "xchg": "r", "inc": "r", "dec": "r", "add": "r", "or": "r", "and": "r", "addret": "r", "fwait": "r", "fwoke": "r", "fwake": "r",
+XA = {"sig_enter": "a", "sig_exit": "a", "st": "a", "flush": "a", "xchg": "a", "inc": "a", "dec": "a", "add": "a", "or": "a", "and": "a", "addret": "a", "fwait": "a", "call": "a", "cb": "a"}
+XR = {"sig_enter": "r", "sig_exit": "r", "ld": "r", "xchg": "r", "inc": "r", "dec": "r", "add": "r", "or": "r", "and": "r", "addret": "r", "fwait": "r", "fwoke": "r", "fwake": "r",
       "ret": "r", "rlock": "r", "runlock": "r"}
+
+
+def merge_sig(events):
+    """C19: the runtime's sig_enter / sig_exit events get the reader state the driver's handler logged right after entry / right
+    before exit (events sigst: nesting count and rcu_read_ongoing() read from the flavor's reader state) as operands a / r."""
+    if not any(e.get("op") == "sigst" for e in events):
+        return events
+    out = []; last_enter = {}; pend_exit = {}
+    for e in events:
+        op = e.get("op"); t = e.get("t")
+        if op == "sig_enter":
+            e = dict(e); last_enter[t] = e
+        elif op == "sigst":
+            if e.get("at") == "enter" and t in last_enter:
+                last_enter.pop(t).update(a=e.get("nest"), r=e.get("ongoing"), win=e.get("win", 0))
+            elif e.get("at") == "exit":
+                pend_exit[t] = e
+            continue
+        elif op == "sig_exit" and t in pend_exit:
+            x = pend_exit.pop(t); e = dict(e, a=x.get("nest"), r=x.get("ongoing"))
+        out.append(e)
+    return out
 
 
 def project(events):
@@ -70,9 +95,9 @@ def project(events):
     Dropped: runtime bookkeeping, busy-wait hints, and every access to a location without a name (the helper's private
     temporary queue, stack variables)."""
     out = []
-    for e in events:
+    for e in merge_sig(events):
         op = e.get("op")
-        if op in DROP_OPS or e.get("var") == "?":
+        if op in DROP_OPS or e.get("var") == "?" or e.get("loc") == "plain":
             continue
         n = {"t": e.get("t", "-"), "op": op, "var": e.get("var", "-"), "xa": "-", "xr": "-"}
         if op in XA and XA[op] in e:
@@ -119,7 +144,7 @@ def model_check(comp, sc, workers, timeout, props=(), mut=(), coverage=False):
     if props:
         mod = gen_mc(sc, "live" + tag, c, cfg_lines=["SPECIFICATION FairSpec"] + ["PROPERTY " + p for p in props] + ["INVARIANT NoErr", "CHECK_DEADLOCK FALSE"])
     else:
-        mod = gen_mc(sc, "mc" + tag, c, cfg_lines=["SPECIFICATION DSpec"] + ["INVARIANT " + i for i in comp["invariants"]] + ["CHECK_DEADLOCK TRUE"])
+        mod = gen_mc(sc, "mc" + tag, c, cfg_lines=["SPECIFICATION " + ("SigDSpec" if sc.get("sig_threads") else "DSpec")] + ["INVARIANT " + i for i in comp["invariants"]] + ["CHECK_DEADLOCK TRUE"])
     for attempt in (1, 2):
         r = run_tlc(mod, coverage=coverage, timeout=timeout, heap="8g", workers=workers)
         if r.ok or r.violation or r.error:
@@ -254,7 +279,8 @@ def replay(ctx, path, defines=()):
     """Re-run one recorded violation on the current tree: a TLC configuration or a recorded execution (same scenario, seed,
     scheduler mode, directed schedule)."""
     meta = json.load(open(os.path.join(path, "meta.json")))
-    flavor = (meta.get("env") or {}).get("CR_REAL_FLAVOR") or ("mb" if "_mb" in str(meta.get("trace_module", "")) else None)
+    m = re.match(r"TV_.*_(mb|memb|qsbr)_[01]$", str(meta.get("trace_module", "")))
+    flavor = (meta.get("env") or {}).get("CR_REAL_FLAVOR") or (m.group(1) if m else None)
     comp = component(REAL_DEFINES[flavor], variant="_" + flavor) if flavor else component(defines)
     if flavor:
         comp["env"] = dict(comp["env"], VRT_BUDGET=30000)
@@ -281,7 +307,7 @@ REAL_DEFINES = {"qsbr": ["CR_FLAVOR_QSBR", "URCU_VERIF_RCU_QS_ACTIVE_ATTEMPTS=2"
                 "mb": ["CR_FLAVOR_MB", "URCU_VERIF_RCU_QS_ACTIVE_ATTEMPTS=2", "URCU_VERIF_URCU_WAIT_ATTEMPTS=2", "URCU_VERIF_KICK_READER_LOOPS=2"],
                 "memb": ["CR_FLAVOR_MEMB", "URCU_VERIF_RCU_QS_ACTIVE_ATTEMPTS=2", "URCU_VERIF_URCU_WAIT_ATTEMPTS=2", "URCU_VERIF_KICK_READER_LOOPS=2"]}
 MINE_FILES = ("urcu-call-rcu-impl.h", "ref.h", "wfcqueue.h")
-DRIVER_OPS = ("call", "ret", "cb", "cbend", "rlock", "runlock", "spawn", "join", "exit", "free", "fail")
+DRIVER_OPS = ("call", "ret", "cb", "cbend", "rlock", "runlock", "spawn", "join", "exit", "free", "fail", "sig_enter", "sig_exit")
 
 
 def project_real(events):
@@ -292,18 +318,61 @@ def project_real(events):
     where the real rcu_read_unlock starts), so that the abstract section lies inside the real one.  A synchronize_rcu() becomes
     gp_begin (right after the event that precedes it: the helper's splice, or the caller's call) and gp_end (right before the
     caller's next own event), so that the abstract grace period contains the real one -- but only if flavor-level events of that
-    thread were recorded in between (otherwise no grace period ran and none is reported)."""
-    out = []; nest = {}; pend_gp = {}; incall = {}; phase = {}; lockpos = {}
+    thread were recorded in between (otherwise no grace period ran and none is reported).
+    C19: the events of a signal handler frame (sig_enter .. sig_exit of the interrupted thread; the handler's own rlock / runlock are
+    logged by the driver with the flavor's nesting count, after the real rcu_read_lock returned / before the real rcu_read_unlock is
+    called) take no part in that bookkeeping: its flavor-level events are dropped, the rest is kept in place.
+    The sig_enter / sig_exit events carry the nesting count the executed code read from the flavor's reader word, and the
+    specification must be at that nesting depth.  An abstract section lies strictly inside the real one, so a handler that interrupts
+    a real rcu_read_lock() after its store to the reader word (signal delivery is a full barrier: the store is visible) or a real
+    rcu_read_unlock() before its store finds the flavor's count one above the abstract one; the abstract rlock is then placed right
+    before the sig_enter (and the later one dropped), the abstract runlock right after the sig_exit (and the earlier one withdrawn) --
+    the abstract section still lies inside the real one.  Which of the two applies is known from the driver (sigst field win: 1 inside
+    the real rcu_read_lock of a scenario rlock, 2 inside the real rcu_read_unlock of a scenario runlock) or, inside call_rcu(), from
+    the phase (before its first / after its last call_rcu-level event)."""
+    out = []; nest = {}; pend_gp = {}; incall = {}; phase = {}; lockpos = {}; insig = {}; early = {}
+    runlock_idx = {}; skip_rlock = {}; redo = {}
+    def absnest(t):
+        return nest.get(t, 0) + (1 if incall.get(t) == "call" and (phase.get(t) == 1 or early.get(t)) else 0)
     def emit(t, op, xr="-"):
         out.append({"t": t, "op": op, "var": "-", "xa": "-", "xr": xr})
-    for e in events:
+    def rec(e, op, t, var):
+        n = {"t": t, "op": op, "var": var, "xa": "-", "xr": "-"}
+        if op in XA and XA[op] in e:
+            n["xa"] = e[XA[op]]
+        if op in XR and XR[op] in e:
+            n["xr"] = e[XR[op]]
+        if op == "fail":
+            n["what"] = e.get("what", "")
+        return n
+    for e in merge_sig(events):
         op = e.get("op"); t = e.get("t", "-"); var = e.get("var", "-")
-        if op in DROP_OPS:
+        if op in DROP_OPS or e.get("loc") == "plain":     # (plain accesses to named locations, logged only with CR_WATCH_PLAIN: not part of the specification)
+            continue
+        if op == "sig_enter":
+            insig[t] = insig.get(t, 0) + 1
+            if insig[t] == 1 and isinstance(e.get("a"), int) and e["a"] == absnest(t) + 1:
+                incr = incall.get(t) == "call"
+                if (incr and phase.get(t) == 0 and not early.get(t)) or (not incr and e.get("win") == 1 and not skip_rlock.get(t)):
+                    emit(t, "rlock", absnest(t) + 1)              # (the rest of the real rcu_read_lock follows the handler)
+                    if incr:
+                        early[t] = True
+                    else:
+                        skip_rlock[t] = True; nest[t] = nest.get(t, 0) + 1
+                elif ((incr and phase.get(t) == 2) or (not incr and e.get("win") == 2)) and runlock_idx.get(t) is not None:
+                    redo[t] = out[runlock_idx[t]]; out[runlock_idx.pop(t)] = None      # (the real rcu_read_unlock has not stored yet)
+        if insig.get(t):
+            if var != "?" and (op in DRIVER_OPS or op == "flush" or var == "gptr"):
+                out.append(rec(e, op, t, var))
+            if op == "sig_exit":
+                insig[t] -= 1
+                if not insig[t] and t in redo:
+                    runlock_idx[t] = len(out); out.append(redo.pop(t))
             continue
         loc = e.get("loc")
-        foreign = loc is not None and loc.split(":")[0] not in MINE_FILES
+        foreign = loc is not None and loc.split(":")[0] not in MINE_FILES and var != "gptr"
         if foreign and incall.get(t) == "call" and phase.get(t) == 1:
-            emit(t, "runlock", nest.get(t, 0)); phase[t] = 2
+            emit(t, "runlock", nest.get(t, 0)); phase[t] = 2; runlock_idx[t] = len(out) - 1
         if foreign and t in pend_gp:
             pend_gp[t][1] = True                          # flavor-level events after the splice / the call: a real synchronize_rcu() ran
         if foreign and incall.get(t) == "call" and phase.get(t) == 0:
@@ -329,7 +398,9 @@ def project_real(events):
                 emit(t, "gp_end")
             if incall.get(t) == "call" and phase.get(t) == 0 and op != "ret":
                 r = {"t": t, "op": "rlock", "var": "-", "xa": "-", "xr": nest.get(t, 0) + 1}
-                if t in lockpos:
+                if early.pop(t, False):
+                    lockpos.pop(t, None)
+                elif t in lockpos:
                     out[lockpos.pop(t)] = r
                 else:
                     out.append(r)
@@ -343,13 +414,19 @@ def project_real(events):
             n["what"] = e.get("what", "")
         if op in ("rlock", "runlock"):
             nest[t] = e.get("r", 0)
+            if op == "rlock" and skip_rlock.pop(t, False):
+                continue                                  # (already placed before the handler that interrupted the real rcu_read_lock)
         if op == "ret":
             if incall.get(t) == "call" and phase.get(t) == 1:
                 emit(t, "runlock", nest.get(t, 0))
             incall[t] = None
+        if op != "flush":
+            runlock_idx.pop(t, None)
+            if op == "runlock":
+                runlock_idx[t] = len(out)
         out.append(n)
         if op == "call":
-            incall[t] = e.get("a"); phase[t] = 0; lockpos.pop(t, None)
+            incall[t] = e.get("a"); phase[t] = 0; lockpos.pop(t, None); early.pop(t, None)
             if e.get("a") == "sync":
                 pend_gp[t] = [len(out), False]; out.append(None)
         elif op == "xchg" and re.match(r"h\d+$", t) and var.endswith(".tail") and str(e.get("a", "")).startswith("H"):
